@@ -45,9 +45,17 @@ def unrat(s):
 class Names:
     """candidate names <-> indices into the declared candidate tuple"""
 
+    class _Idx(dict):
+        """a name the implementation produced that was never declared gets an index beyond the declared ones instead of
+        crashing the harness: the model cannot produce it, so the correspondence / monitors report the case"""
+
+        def __missing__(self, key):
+            self[key] = 1000 + len(self)
+            return self[key]
+
     def __init__(self, names):
         self.names = list(names)
-        self.idx = {c: i for i, c in enumerate(self.names)}
+        self.idx = Names._Idx({c: i for i, c in enumerate(self.names)})
 
     def i(self, c):
         return self.idx[str(c)]
